@@ -125,6 +125,8 @@ def run_contracts(ctx, contracts, contracts_module):
             ctx.obligation(c.qualname + ':locked-obligations-missing', fn, 'undecided', 'pyvc', 0.0,
                            detail='%d obligations recorded in obligations.lock were not generated'
                                   % len(missing))
+    if os.environ.get('VERIF_RELOCK') == '1':
+        write_lock([ctx])
     ctx.family('pyvc.cpython_crosscheck', 'B', instances=len(contracts), evaluations=total_concrete,
                nontrivial=total_concrete, exhaustive=False,
                bound='executable contracts evaluated on the real functions over enumerated small inputs',
